@@ -447,6 +447,14 @@ func (u *Unmarshaler) parseOptionsWithContext(field reflect.StructField, m Value
 		key = u.opts.canonicalKey(key)
 
 		if len(options.OptionalDep) > 0 {
+			// canonicalize the key behind the not symbol, not the symbol itself
+			optionalDep := options.OptionalDep
+			if optionalDep[0] == notSymbol {
+				optionalDep = string(notSymbol) + u.opts.canonicalKey(optionalDep[1:])
+			} else {
+				optionalDep = u.opts.canonicalKey(optionalDep)
+			}
+
 			// need to create a new fieldOption, because the original one is shared through cache.
 			options = &fieldOptions{
 				fieldOptionsWithContext: fieldOptionsWithContext{
@@ -458,7 +466,7 @@ func (u *Unmarshaler) parseOptionsWithContext(field reflect.StructField, m Value
 					EnvVar:     options.EnvVar,
 					Range:      options.Range,
 				},
-				OptionalDep: u.opts.canonicalKey(options.OptionalDep),
+				OptionalDep: optionalDep,
 			}
 		}
 	}
